@@ -42,7 +42,7 @@ MANIFEST = dict(
          "canceled host is connected afterwards, never a deadlock).  Deterministic in every run: a host in each of the six "
          "phases at once with the watchdog or a worker holding either mutex, 0..3 s on the clock between ^C and a second "
          "^C / ^Z (1 s = INTR_TIME exactly), signals around every step of the shutdown tail, every pair of positions on "
-         "two tiny configurations, a signal at every position while the watchdog times hosts out, 13 scenarios on "
+         "two tiny configurations, a signal at every position while the watchdog times hosts out, 15 scenarios (two with the clock set BACK between the signals) on "
          "real threads with real signals (gated transport, settable clock) plus 15 of them again with SIGINT/SIGTSTP "
          "inherited ignored, blocked or both, 52 of them again with pdsh started at extreme values of the clock (time(NULL) = "
          "0, 1, 2, 2^31-2 .. 2^31+1, 2^32-2 .. 2^32+1, 2^33; first/second interrupt one and two seconds apart straddling 2^31 "
